@@ -301,6 +301,23 @@ func (ba *flatBlobAccess) GetFromComposite(ctx context.Context, parentDigest, ch
 		}
 		ba.refreshesBlobsDurationGetFromComposite.Observe(time.Since(refreshStart).Seconds())
 		ba.refreshesBlobsGetFromComposite.Observe(1)
+	} else {
+		// The lock was dropped while slicing. Blocks may have
+		// been rotated in the meantime, meaning the block index
+		// in the location obtained previously may now refer to
+		// a different block. Look up the parent once more.
+		parentLocation, err = ba.keyLocationMap.Get(parentKey)
+		if err != nil {
+			ba.lock.Unlock()
+			if status.Code(err) == codes.NotFound {
+				// The parent object disappeared, so the
+				// slices can't be registered. The child
+				// has already been extracted successfully.
+				return bChild
+			}
+			bChild.Discard()
+			return buffer.NewBufferFromError(err)
+		}
 	}
 
 	// Create key-location map entries for each of the slices. This
